@@ -136,6 +136,24 @@ func flightObjects(base string) []flightObj {
 			return strings.Trim(resp.Header.Get("ETag"), `"`), nil
 		}})
 	}
+	// cacheTransport.head for several FILES OF ONE URL DIRECTORY (keyring entries given as URLs): the keys of
+	// the etag cache and of the group must tell them apart
+	{
+		rt := &scriptedRT{}
+		dir := filepath.Join(base, "inproc-head-samedir")
+		cl := apk.VerifC19CacheClient(dir, false, apk.NewCache(true), &http.Client{Transport: rt}, true)
+		objs = append(objs, flightObj{name: "FHeadEtag", call: func(key string, fn func() (string, error)) (string, error) {
+			rt.mu.Lock()
+			rt.fn = fn
+			rt.mu.Unlock()
+			req, _ := http.NewRequest(http.MethodHead, "http://origin.invalid/repo/keys/"+key+".rsa.pub", nil)
+			resp, err := cl.Do(req)
+			if err != nil {
+				return "", err
+			}
+			return strings.Trim(resp.Header.Get("ETag"), `"`), nil
+		}})
+	}
 	// cacheTransport.get
 	{
 		rt := &scriptedRT{}
@@ -204,7 +222,7 @@ func (d *driver) stageFlights() {
 		{},
 	}
 	round := 0
-	for _, mkObj := range []int{0, 1, 2, 3, 4} {
+	for _, mkObj := range []int{0, 1, 2, 3, 4, 5} {
 		var scripts [][]scripted
 		scripts = append(scripts, corpus...)
 		for i := 0; i < nrand; i++ {
@@ -252,7 +270,7 @@ func (d *driver) stageFlights() {
 		}
 	}
 	// concurrent callers (of one key, and of two keys at the same time) while the leaders' executions are held
-	for _, mkObj := range []int{0, 1, 2} {
+	for _, mkObj := range []int{0, 1, 2, 4} {
 		ns := []int{2, 5}
 		if d.tier == "thorough" {
 			ns = []int{1, 2, 3, 5, 9, 17}
